@@ -36,6 +36,14 @@ def bridge_info():
     return schemas.by_name("bridge-local")
 
 
+def _spine(fragment, left):
+    d, n = 0, (fragment.first_child if left else fragment.last_child)
+    while n is not None and not n.is_leaf and not n.is_text:
+        d += 1
+        n = n.first_child if left else n.last_child
+    return d
+
+
 def single_depth(sl):
     """nested levels at which the slice content is a single non-leaf child open on both sides"""
     n, frag, a, b = 0, sl.content, sl.open_start, sl.open_end
@@ -144,7 +152,10 @@ def request(ctx, info, doc, step, res_doc, impl_ok, detail, reqs, metas, replay)
         reqs.append({"op": "aroundGuards", "s": info.lean_id, "doc": info.node(doc), "from": step.from_,
                      "to": step.to, "gapFrom": step.gap_from, "gapTo": step.gap_to,
                      "slice": info.slice(step.slice), "insert": step.insert})
-        metas.append(("aroundGuards", replay, (py_around_guards(doc, step), stv == "ok", impl_ok, detail)))
+        sl = step.slice
+        shape = (sl.open_start <= _spine(sl.content, True) and sl.open_end <= _spine(sl.content, False)
+                 and step.insert <= sl.size)
+        metas.append(("aroundGuards", replay, (py_around_guards(doc, step), stv == "ok", impl_ok, detail, shape)))
         return
     if not isinstance(step, ReplaceStep) or step.from_ > step.to:
         return
@@ -179,7 +190,7 @@ def compare(ctx, replay, payload, out):
 
 
 def compare_around(ctx, replay, payload, out):
-    (pfit, pside, pclean), valid, impl_ok, detail = payload
+    (pfit, pside, pclean), valid, impl_ok, detail, shape = payload
     if "ok" not in out:
         ctx.mismatch("aroundGuards", replay, [pfit, pside, pclean], out)
         return
@@ -193,6 +204,12 @@ def compare_around(ctx, replay, payload, out):
     if valid and mclean and not mfit:
         # theorem gapFitsBack_of_clean
         ctx.mismatch("gapFitsBack_of_clean", replay, "clean gap => it fits back", "rejected")
+    if valid and shape and not mfit:
+        # theorem gapFitsBack_of_applied (Props/C04.lean; Proofs/GapBack.lean): since `insert_into` validates the content
+        # it built, the gap of every applied replace-around step fits back into the remainder of the old slice — whatever
+        # its shape (inside text, between texts that join, at any depth).  The pair-alignment proviso of the theorem is
+        # void on Python strings.  (Finding C04-around-text-gap was the failure of exactly this.)
+        ctx.mismatch("gapFitsBack_of_applied", replay, "the step applied => its gap fits back", "rejected")
     structure = detail is not None and "Structure" in str(detail)
     if valid and mfit and mside and not impl_ok and not structure:
         # all guards of replaceAround_undo other than the structure check hold, the failure is not the structure check
